@@ -39,10 +39,12 @@ RULE = {"*": "one evaluation = one text pushed through ctparse() and ctparse_gen
 ASSUMPTIONS = {"*": [
     "unicode strings of bounded length (<= 8 tokens, <= 80 chars) so that the un-timed search "
     "stays small; no real timeout is ever active",
-    "a depth-limited run (max_stack_depth 1 or 10) that exceeds 120 000 scorer calls is reported "
-    "as non-termination (largest legitimate such search observed: ~5 000 calls); the un-truncated "
-    "search (max_stack_depth=0) is legitimately huge for some short texts, gets a cap of 15 000 "
-    "calls and is skipped and counted when over it - termination is then not decided for it",
+    "termination is judged only for depth-limited runs (max_stack_depth 1 or 10) under a "
+    "deterministic scorer (shipped, constant): there every production enters the stack at most "
+    "once, the largest legitimate search observed is ~5 000 scorer calls, and exceeding 400 000 "
+    "is reported as non-termination; the un-truncated search (max_stack_depth=0) and any search "
+    "under a random scorer are legitimately huge for some short texts, get a cap of 15 000 calls "
+    "and are skipped and counted when over it - termination is then not decided for them",
     "the input dimension dominates this property; the simulator adds the configuration/fault "
     "product and the clock seams",
 ]}
@@ -50,7 +52,7 @@ EXPECTED_FAULTS = {"C01": ["model_absent", "model_absent_fresh_process", "random
                            "omitted_ts", "debug_logging", "stack_depth_limit"]}
 DETERMINISM_SAMPLE = {"quick": 3, "thorough": 6}
 EXHAUSTIVE = {}
-STEP_CAP = 120_000
+STEP_CAP = 400_000
 STEP_CAP_UNLIMITED = 15_000
 
 
@@ -188,7 +190,12 @@ def execute(case):
             # the un-truncated search (depth 0) is legitimately huge for some short texts
             # ('10/31/2018 10/31/2018'): it gets a small cap and is skipped when over it;
             # only depth-limited runs over the large cap count as non-termination
-            cap = STEP_CAP if depth else STEP_CAP_UNLIMITED
+            # ... and under a random scorer even a depth-limited search re-adds productions
+            # whenever the dice give them a better score, so its length has no useful bound
+            # either ('05/10 05/10 13 05/10 5. mai 12', RandomScorer(2822): > 120 000 calls)
+            randomised = isinstance(env["scorer"], list)
+            judge_termination = bool(depth) and not randomised
+            cap = STEP_CAP if judge_termination else STEP_CAP_UNLIMITED
             kw = dict(ts=ts, timeout=0, relative_match_len=item["relative_match_len"],
                       max_stack_depth=depth, latent_time=item["latent_time"])
             where = "text=%r ts=%s opts=%s env=%s" % (
@@ -222,7 +229,7 @@ def execute(case):
                 probes["candidates_streamed"] += n_c
                 obs.append([i, "gen", n_c])
             except Budget:
-                if depth:
+                if judge_termination:
                     viol("C01.terminates", "step-cap-exceeded",
                          "%s: candidate stream not exhausted after %d scorer calls" % (where, cap))
                 else:
